@@ -196,33 +196,115 @@ def run {α : Type} [DecidableEq α] (c : Cfg) : Store α → List (Ev α) → L
   | _, [] => []
   | st, e :: es => let r := step c st e; r.2 :: run c r.1 es
 
+/-! ## several stores, several limiter instances on one request path (round 4)
+
+`RateLimiterWithConfig` can be registered more than once on the way to a handler — `e.Use`, a
+group, the route itself — each instance with its own store (a coarse limiter for a whole API and
+a strict one for a single route) or two instances sharing one store.  The stores of the process
+are numbered; `cs k` is the configuration of store `k`, `sts k` its state.  A request passes the
+instances of its route's *chain* in registration order (outermost first): every instance that
+is reached calls `BeforeFunc` (when configured), extracts the identifier and consults ITS store;
+the first refusal answers 429 and nothing behind it is reached. -/
+
+/-- observation of one request behind a chain: handler ran, status, number of `BeforeFunc` calls -/
+structure Out3 where
+  ran : Bool
+  status : Nat
+  before : Nat
+deriving DecidableEq, Repr, Inhabited
+
+/-- replace the state of store `k` -/
+def setStore {α : Type} (sts : Nat → Store α) (k : Nat) (st : Store α) : Nat → Store α :=
+  fun j => if j = k then st else sts j
+
+/-- the instances of `chain` in order on a request that is neither skipped nor fails in the
+    extractor: new store states, whether the handler is reached, how many instances were reached,
+    and the log of `(store, decision)` pairs -/
+def chainAllow {α : Type} [DecidableEq α] (cs : Nat → Cfg) :
+    (Nat → Store α) → List Nat → α → Nat → (Nat → Store α) × Bool × List (Nat × Bool)
+  | sts, [], _, _ => (sts, true, [])
+  | sts, k :: ks, id, t =>
+    let r := allow (cs k) (sts k) id t
+    if r.2 then
+      let rest := chainAllow cs (setStore sts k r.1) ks id t
+      (rest.1, rest.2.1, (k, true) :: rest.2.2)
+    else (setStore sts k r.1, false, [(k, false)])
+
+/-- a request with its route's chain (`direct`: the chain is the single store called) -/
+structure EvC (α : Type) where
+  t : Nat
+  kind : Kind
+  id : α
+  chain : List Nat
+deriving Repr
+
+/-- one request / direct call in a process with several stores; `beforeOn` = the instances are
+    configured with a `BeforeFunc` -/
+def stepC {α : Type} [DecidableEq α] (cs : Nat → Cfg) (beforeOn : Bool) (sts : Nat → Store α) (e : EvC α) :
+    (Nat → Store α) × Out3 :=
+  match e.kind with
+  | .httpSkip => (sts, ⟨true, 200, 0⟩)     -- every instance's Skipper says skip
+  | .httpErr =>
+    -- the outermost instance calls BeforeFunc, then its extractor fails: 403
+    match e.chain with
+    | [] => (sts, ⟨true, 200, 0⟩)
+    | _ :: _ => (sts, ⟨false, 403, if beforeOn then 1 else 0⟩)
+  | .http =>
+    let r := chainAllow cs sts e.chain e.id e.t
+    (r.1, ⟨r.2.1, if r.2.1 then 200 else 429, if beforeOn then r.2.2.length else 0⟩)
+  | .direct =>
+    match e.chain with
+    | k :: _ => let r := allow (cs k) (sts k) e.id e.t; (setStore sts k r.1, ⟨r.2, 0, 0⟩)
+    | [] => (sts, ⟨false, 0, 0⟩)
+  | .directAt tb =>
+    match e.chain with
+    | k :: _ => let r := allow2 (cs k) (sts k) e.id e.t tb; (setStore sts k r.1, ⟨r.2, 0, 0⟩)
+    | [] => (sts, ⟨false, 0, 0⟩)
+
+def runC {α : Type} [DecidableEq α] (cs : Nat → Cfg) (beforeOn : Bool) :
+    (Nat → Store α) → List (EvC α) → List Out3
+  | _, [] => []
+  | sts, e :: es => let r := stepC cs beforeOn sts e; r.2 :: runC cs beforeOn r.1 es
+
 /-! ## wire -/
 open Wire
 
-def pEv : P (Ev (List Nat)) := do
+def pEvC : P (EvC (List Nat)) := do
   let t ← nat
   let n ← nat
   let id ← bytes
-  match n with
-  | 0 => pure ⟨t, .direct, id⟩
-  | 1 => pure ⟨t, .http, id⟩
-  | 2 => pure ⟨t, .httpErr, id⟩
-  | 3 => pure ⟨t, .httpSkip, id⟩
-  | 4 => do let tb ← nat; pure ⟨t, .directAt tb, id⟩
-  | _ => failure
+  let k ← match n with
+    | 0 => pure Kind.direct
+    | 1 => pure Kind.http
+    | 2 => pure Kind.httpErr
+    | 3 => pure Kind.httpSkip
+    | 4 => do let tb ← nat; pure (Kind.directAt tb)
+    | _ => failure
+  let chain ← list nat
+  pure ⟨t, k, id, chain⟩
 
-def encOut (o : Out) : List String := [encBool o.ran, toString o.status]
+def pRaw : P RawCfg := do
+  let n ← nat; let d ← nat; let b ← nat; let x ← nat
+  pure ⟨n, d, b, x⟩
 
-/-- line: `rateNum rateDen burst expiresIn t0 n (t kind id [tb])*` → `n (ran status)*` (`tb` only for kind 4)
-    (`burst`/`expiresIn` as configured, 0 = default; `t0` = construction instant) -/
+def encOut3 (o : Out3) : List String := [encBool o.ran, toString o.status, toString o.before]
+
+/-- line: `nStores (rateNum rateDen burst expiresIn)* t0 beforeOn n (t kind id [tb] nChain store*)*`
+    → `n (ran status before)*` (`tb` only for kind 4; `burst`/`expiresIn` as configured, 0 =
+    default; `t0` = construction instant of every store) -/
 def runLine (line : String) : String :=
   match parseLine (do
-      let n ← nat; let d ← nat; let b ← nat; let x ← nat; let t0 ← nat
-      let es ← list pEv
-      pure (RawCfg.mk n d b x, t0, es)) line with
+      let rcs ← list pRaw
+      let t0 ← nat
+      let bf ← bool
+      let es ← list pEvC
+      pure (rcs, t0, bf, es)) line with
   | none => "bad-op"
-  | some (rc, t0, es) =>
-    if rc.rateDen = 0 then "bad-op"
-    else render (encList encOut (run (mkCfg rc) (Store.init t0) es))
+  | some (rcs, t0, bf, es) =>
+    if rcs.any (fun rc => rc.rateDen = 0) then "bad-op"
+    else
+      let cfgs := rcs.map mkCfg
+      let cs : Nat → Cfg := fun k => cfgs.getD k default
+      render (encList encOut3 (runC cs bf (fun _ => Store.init t0) es))
 
 end C18
